@@ -317,10 +317,11 @@ End FtermInd.
 Section Unfold.
   Variable codata : list ctydecl.
   Variable cur : string.
-  Let wc' := wc codata cur.
-  Let cmp' := cmp codata cur.
+  Variable lg : bool.
+  Let wc' := wc codata cur lg.
+  Let cmp' := cmp codata cur lg.
   Lemma wc_unfold : forall t cont,
-    wc codata cur t cont =
+    wc codata cur lg t cont =
     match t with
     | FVar v ty _ => wc_var v ty cont
     | FLit n => wc_lit n cont
@@ -336,14 +337,14 @@ Section Unfold.
         wc_case cur (wc' scrut) (fterm_type scrut) (List.length cls) (fun cont' => clauses_with (fun b => wc' b) cont' cls) cont
     | FNew cls ty => wc_new (coclauses_with (fun b => wc' b) cls) ty cont
     | FLabel l t' ty => wc_label l (wc' t') ty cont
-    | FGoto l t' ty => wc_goto l (wc' t') ty
+    | FGoto l t' ty => wc_goto lg l (wc' t') ty (fterm_type t')
     | FExit a ty => wc_exit (cmp' a CI64) ty
     | FParen t' => wc' t' cont
     end.
   Proof. destruct t; reflexivity. Qed.
 
   Lemma cmp_unfold : forall t ty,
-    cmp codata cur t ty =
+    cmp codata cur lg t ty =
     match t with
     | FVar v vty _ => cmp_var v vty
     | FLit n => cmp_lit n
@@ -362,7 +363,7 @@ Section Unfold.
           (wc_case cur (wc' scrut) (fterm_type scrut) (List.length cls) (fun cont' => clauses_with (fun b => wc' b) cont' cls)) ty
     | FNew cls nty => cmp_new (coclauses_with (fun b => wc' b) cls) nty
     | FLabel l t' lty => cmp_label l (wc' t') lty
-    | FGoto l t' gty => default_compile (fun _ => wc_goto l (wc' t') gty) ty
+    | FGoto l t' gty => default_compile (fun _ => wc_goto lg l (wc' t') gty (fterm_type t')) ty
     | FExit a ety => default_compile (fun _ => wc_exit (cmp' a CI64) ety) ty
     | FParen t' => cmp' t' ty
     end.
@@ -393,61 +394,61 @@ Proof.
 Qed.
 
 (* the invariant for the whole translation: all 15 term forms, both methods *)
-Lemma wc_cmp_grows : forall codata cur t,
-  (forall cont, mgrows (wc codata cur t cont)) /\ (forall ty, mgrows (cmp codata cur t ty)).
+Lemma wc_cmp_grows : forall codata cur lg t,
+  (forall cont, mgrows (wc codata cur lg t cont)) /\ (forall ty, mgrows (cmp codata cur lg t ty)).
 Proof.
-  intros codata cur t. induction t using fterm_ind'.
+  intros codata cur lg t. induction t using fterm_ind'.
   - split; intros; [rewrite wc_unfold; unfold wc_var | rewrite cmp_unfold; unfold cmp_var]; mg.
   - split; intros; [rewrite wc_unfold; unfold wc_lit | rewrite cmp_unfold; unfold cmp_lit]; mg.
   - destruct IHt1 as [W1 C1], IHt2 as [W2 C2].
     split; intros; [rewrite wc_unfold; unfold wc_op, cmp_op | rewrite cmp_unfold; unfold cmp_op]; mg.
   - destruct IHt1 as [W1 C1], IHt2 as [W2 C2], IHt3 as [W3 C3].
-    assert (Hifc : forall cont, mgrows (wc_ifc cur s (cmp codata cur t1 CI64)
-               (match b with Some b' => Some (cmp codata cur b' CI64) | None => None end)
-               (wc codata cur t2) (wc codata cur t3) cont)).
+    assert (Hifc : forall cont, mgrows (wc_ifc cur s (cmp codata cur lg t1 CI64)
+               (match b with Some b' => Some (cmp codata cur lg b' CI64) | None => None end)
+               (wc codata cur lg t2) (wc codata cur lg t3) cont)).
     { intros cont. unfold wc_ifc. destruct b as [b'|]; simpl in H.
       - destruct H as [Wb Cb]. mg2.
       - mg2. }
     split; intros; [rewrite wc_unfold | rewrite cmp_unfold; apply mgrows_default_compile]; apply Hifc.
   - destruct IHt1 as [W1 C1], IHt2 as [W2 C2].
-    assert (Hp : forall cont, mgrows (wc_print nl (cmp codata cur t1 CI64) (wc codata cur t2) cont)).
+    assert (Hp : forall cont, mgrows (wc_print nl (cmp codata cur lg t1 CI64) (wc codata cur lg t2) cont)).
     { intros. unfold wc_print. mg. }
     split; intros; [rewrite wc_unfold | rewrite cmp_unfold; apply mgrows_default_compile]; apply Hp.
   - destruct IHt1 as [W1 C1], IHt2 as [W2 C2].
-    assert (Hl : forall cont, mgrows (wc_let codata v vty (cmp codata cur t1) (wc codata cur t1) (wc codata cur t2) cont)).
+    assert (Hl : forall cont, mgrows (wc_let codata v vty (cmp codata cur lg t1) (wc codata cur lg t1) (wc codata cur lg t2) cont)).
     { intros. unfold wc_let. mg. }
     split; intros; [rewrite wc_unfold | rewrite cmp_unfold; apply mgrows_default_compile]; apply Hl.
-  - assert (Hs : mgrows (subst_with (fun y => cmp codata cur y) args)).
+  - assert (Hs : mgrows (subst_with (fun y => cmp codata cur lg y) args)).
     { apply mgrows_subst_with. eapply Forall_impl; [|exact H]. intros a [_ Ca]. exact Ca. }
-    assert (Hc : forall cont, mgrows (wc_call f (subst_with (fun y => cmp codata cur y) args) ret cont)).
+    assert (Hc : forall cont, mgrows (wc_call f (subst_with (fun y => cmp codata cur lg y) args) ret cont)).
     { intros. unfold wc_call. mg. }
     split; intros; [rewrite wc_unfold | rewrite cmp_unfold; apply mgrows_default_compile]; apply Hc.
-  - assert (Hs : mgrows (subst_with (fun y => cmp codata cur y) args)).
+  - assert (Hs : mgrows (subst_with (fun y => cmp codata cur lg y) args)).
     { apply mgrows_subst_with. eapply Forall_impl; [|exact H]. intros a [_ Ca]. exact Ca. }
     split; intros; [rewrite wc_unfold; unfold wc_ctor, cmp_ctor | rewrite cmp_unfold; unfold cmp_ctor]; mg.
   - destruct IHt as [W C].
-    assert (Hs : mgrows (subst_with (fun y => cmp codata cur y) args)).
+    assert (Hs : mgrows (subst_with (fun y => cmp codata cur lg y) args)).
     { apply mgrows_subst_with. eapply Forall_impl; [|exact H]. intros a [_ Ca]. exact Ca. }
-    assert (Hd : forall cont, mgrows (wc_dtor (wc codata cur t) (fterm_type t) x (subst_with (fun y => cmp codata cur y) args) cont)).
+    assert (Hd : forall cont, mgrows (wc_dtor (wc codata cur lg t) (fterm_type t) x (subst_with (fun y => cmp codata cur lg y) args) cont)).
     { intros. unfold wc_dtor. mg. }
     split; intros; [rewrite wc_unfold | rewrite cmp_unfold; apply mgrows_default_compile]; apply Hd.
   - destruct IHt as [W C].
-    assert (Hcl : forall k, mgrows (clauses_with (fun b => wc codata cur b) k cls)).
+    assert (Hcl : forall k, mgrows (clauses_with (fun b => wc codata cur lg b) k cls)).
     { intros k. apply mgrows_clauses_with. eapply Forall_impl; [|exact H]. intros c [Wc _]. exact Wc. }
-    assert (Hc : forall cont, mgrows (wc_case cur (wc codata cur t) (fterm_type t) (List.length cls)
-                                        (fun cont' => clauses_with (fun b => wc codata cur b) cont' cls) cont)).
+    assert (Hc : forall cont, mgrows (wc_case cur (wc codata cur lg t) (fterm_type t) (List.length cls)
+                                        (fun cont' => clauses_with (fun b => wc codata cur lg b) cont' cls) cont)).
     { intros. unfold wc_case. mg2. }
     split; intros; [rewrite wc_unfold | rewrite cmp_unfold; apply mgrows_default_compile]; apply Hc.
-  - assert (Hcl : mgrows (coclauses_with (fun b => wc codata cur b) cls)).
+  - assert (Hcl : mgrows (coclauses_with (fun b => wc codata cur lg b) cls)).
     { apply mgrows_coclauses_with. eapply Forall_impl; [|exact H]. intros c [Wc _]. exact Wc. }
     split; intros; [rewrite wc_unfold; unfold wc_new, cmp_new | rewrite cmp_unfold; unfold cmp_new]; mg.
   - destruct IHt as [W C].
     split; intros; [rewrite wc_unfold; unfold wc_label, cmp_label | rewrite cmp_unfold; unfold cmp_label]; mg.
   - destruct IHt as [W C].
-    assert (Hg : mgrows (wc_goto l (wc codata cur t) ty)). { unfold wc_goto. mg. }
+    assert (Hg : mgrows (wc_goto lg l (wc codata cur lg t) ty (fterm_type t))). { unfold wc_goto. mg. }
     split; intros; [rewrite wc_unfold | rewrite cmp_unfold; apply mgrows_default_compile; intros _]; apply Hg.
   - destruct IHt as [W C].
-    assert (He : mgrows (wc_exit (cmp codata cur t CI64) ty)). { unfold wc_exit. mg. }
+    assert (He : mgrows (wc_exit (cmp codata cur lg t CI64) ty)). { unfold wc_exit. mg. }
     split; intros; [rewrite wc_unfold | rewrite cmp_unfold; apply mgrows_default_compile; intros _]; apply He.
   - destruct IHt as [W C].
     split; intros; [rewrite wc_unfold; apply W | rewrite cmp_unfold; apply C].
@@ -456,13 +457,13 @@ Qed.
 (* the whole-translation form of "generated names are fresh": a run of compile_with_cont / compile
    from state st extends used_vars and used_labels by pairwise distinct names, none of which was
    in the respective set before *)
-Theorem translation_names_fresh : forall codata cur t cont st s st',
-  wc codata cur t cont st = Ok (s, st') ->
+Theorem translation_names_fresh : forall codata cur lg t cont st s st',
+  wc codata cur lg t cont st = Ok (s, st') ->
   (exists gv, st_used_vars st' = gv ++ st_used_vars st /\ NoDup gv /\ forall x, In x gv -> ~ In x (st_used_vars st)) /\
   (exists gl, st_used_labels st' = gl ++ st_used_labels st /\ NoDup gl /\ forall x, In x gl -> ~ In x (st_used_labels st)).
 Proof.
-  intros codata cur t cont st s st' H.
-  destruct (proj1 (wc_cmp_grows codata cur t) cont st s st' H) as [[gv [Ev [Nv Fv]]] [gl [l [El [[Nl Fl] _]]]]].
+  intros codata cur lg t cont st s st' H.
+  destruct (proj1 (wc_cmp_grows codata cur lg t) cont st s st' H) as [[gv [Ev [Nv Fv]]] [gl [l [El [[Nl Fl] _]]]]].
   split; [exists gv | exists gl]; auto.
 Qed.
 
@@ -524,29 +525,29 @@ Proof.
   exists gl. rewrite app_nil_r in Ll. subst l. auto.
 Qed.
 
-Lemma compile_def_names : forall d codata ul g ul',
-  compile_def d codata ul = Ok (g, ul') ->
+Lemma compile_def_names : forall lg d codata ul g ul',
+  compile_def lg d codata ul = Ok (g, ul') ->
   exists gl, ul' = gl ++ ul /\ fresh_list gl ul /\ map cdname g = map new_id (fdname d :: gl).
 Proof.
-  intros d codata ul g ul' H. unfold compile_def in H.
+  intros lg d codata ul g ul' H. unfold compile_def in H.
   match type of H with context [run_def_body ?c ?dd ?u ?k] => destruct (run_def_body c dd u k) as [[[a body] st]|e] eqn:E end;
     simpl in H; [|discriminate].
   injection H as Hg Hul. subst.
   apply run_def_body_names in E.
   - destruct E as [gl [El [Fl Nl]]]. exists gl. simpl. rewrite Nl. auto.
-  - intros ty. mg. apply (proj1 (wc_cmp_grows codata (fdname d) (fdbody d))).
+  - intros ty. mg. apply (proj1 (wc_cmp_grows codata (fdname d) lg (fdbody d))).
 Qed.
-Lemma compile_main_names : forall d codata ul g ul',
-  compile_main d codata ul = Ok (g, ul') ->
+Lemma compile_main_names : forall lg d codata ul g ul',
+  compile_main lg d codata ul = Ok (g, ul') ->
   exists gl, ul' = gl ++ ul /\ fresh_list gl ul /\ map cdname g = map new_id (fdname d :: gl).
 Proof.
-  intros d codata ul g ul' H. unfold compile_main in H.
+  intros lg d codata ul g ul' H. unfold compile_main in H.
   match type of H with context [run_def_body ?c ?dd ?u ?k] => destruct (run_def_body c dd u k) as [[body st]|e] eqn:E end;
     simpl in H; [|discriminate].
   injection H as Hg Hul. subst.
   apply run_def_body_names in E.
   - destruct E as [gl [El [Fl Nl]]]. exists gl. simpl. rewrite Nl. auto.
-  - intros ty. mg. apply (proj1 (wc_cmp_grows codata (fdname d) (fdbody d))).
+  - intros ty. mg. apply (proj1 (wc_cmp_grows codata (fdname d) lg (fdbody d))).
 Qed.
 
 Definition names_ok (ul : list string) (rest : list fdef) (ns : list cident) : Prop :=
@@ -585,26 +586,26 @@ Proof.
   - intros d' Hd'. apply in_or_app. right. apply Hin. right. exact Hd'.
 Qed.
 
-Lemma compile_defs_names : forall defs codata ul front back res,
-  compile_defs defs codata ul front back = Ok res ->
+Lemma compile_defs_names : forall lg defs codata ul front back res,
+  compile_defs lg defs codata ul front back = Ok res ->
   NoDup (map fdname defs) ->
   (forall d, In d defs -> In (fdname d) ul) ->
   NoDup (map cdname front ++ map cdname back) ->
   names_ok ul defs (map cdname front ++ map cdname back) ->
   NoDup (map cdname res).
 Proof.
-  induction defs as [|d r IH]; intros codata ul front back res H Hnd Hin Hacc Hok; simpl in H.
+  intros lg. induction defs as [|d r IH]; intros codata ul front back res H Hnd Hin Hacc Hok; simpl in H.
   - injection H as H. subst res. rewrite rev_append_rev, app_nil_r, map_app, map_rev.
     eapply Permutation_NoDup; [|exact Hacc].
     apply Permutation_app_head. apply Permutation_rev.
   - destruct (String.eqb (fdname d) "main").
-    + destruct (compile_main d codata ul) as [[g ul']|e] eqn:E; simpl in H; [|discriminate].
-      destruct (compile_main_names _ _ _ _ _ E) as [gl [Hul [Hf Hg]]]. subst ul'.
+    + destruct (compile_main lg d codata ul) as [[g ul']|e] eqn:E; simpl in H; [|discriminate].
+      destruct (compile_main_names _ _ _ _ _ _ E) as [gl [Hul [Hf Hg]]]. subst ul'.
       destruct (group_step d r ul gl (map cdname g) _ Hnd Hin Hf Hg Hacc Hok) as [H1 [H2 H3]].
       inversion Hnd; subst.
       eapply IH; [exact H | assumption | exact H3 | |]; rewrite map_app, <- app_assoc; assumption.
-    + destruct (compile_def d codata ul) as [[g ul']|e] eqn:E; simpl in H; [|discriminate].
-      destruct (compile_def_names _ _ _ _ _ E) as [gl [Hul [Hf Hg]]]. subst ul'.
+    + destruct (compile_def lg d codata ul) as [[g ul']|e] eqn:E; simpl in H; [|discriminate].
+      destruct (compile_def_names _ _ _ _ _ _ E) as [gl [Hul [Hf Hg]]]. subst ul'.
       destruct (group_step d r ul gl (map cdname g) _ Hnd Hin Hf Hg Hacc Hok) as [H1 [H2 H3]].
       inversion Hnd; subst.
       assert (Hperm : Permutation (map cdname g ++ map cdname front ++ map cdname back)
@@ -622,17 +623,22 @@ Qed.
 (* Definition names of the translated program are pairwise distinct whenever the source's are:
    user names are kept, lifted definitions carry generated labels, and generated labels never
    coincide with a user definition name or with another generated label (of any definition). *)
-Theorem compile_prog_def_names_distinct : forall p c,
-  compile_prog p = Ok c ->
+Theorem compile_prog_gen_def_names_distinct : forall lg p c,
+  compile_prog_gen lg p = Ok c ->
   NoDup (map fdname (fcpdefs p)) ->
   NoDup (map cdname (cpdefs c)).
 Proof.
-  intros p c H Hnd. unfold compile_prog in H.
-  destruct (compile_defs (fcpdefs p) _ _ [] []) as [defs|e] eqn:E; simpl in H; [|discriminate].
+  intros lg p c H Hnd. unfold compile_prog_gen in H.
+  destruct (compile_defs lg (fcpdefs p) _ _ [] []) as [defs|e] eqn:E; simpl in H; [|discriminate].
   injection H as H. subst c. simpl.
   eapply compile_defs_names; [exact E | exact Hnd | | constructor | intros n []].
   intros d Hd. apply in_map. exact Hd.
 Qed.
+Theorem compile_prog_def_names_distinct : forall p c,
+  compile_prog p = Ok c ->
+  NoDup (map fdname (fcpdefs p)) ->
+  NoDup (map cdname (cpdefs c)).
+Proof. intros p c. apply compile_prog_gen_def_names_distinct. Qed.
 
 (* ====================================================================================
    Part 3: the capture witness (DESIGN 7.1; corpus/fun/capture1.sc as the type checker
@@ -668,3 +674,144 @@ Proof.
   split; [vm_compute; reflexivity|]. split; [vm_compute; reflexivity|].
   rewrite capture_witness_fun, capture_witness_core. intros H. discriminate H.
 Qed.
+
+(* ====================================================================================
+   Part 4: the witness of the REPAIRED defect class (mistyped goto target, fixed in /repo by commit
+   126604b): before the fix the translated program was not closed - a lifted definition was called
+   with a covariable that is not in scope; regression statements
+   ==================================================================================== *)
+(* name-level closedness of a Core program: every free identifier of a definition body is a parameter *)
+Definition cdef_closed (d : cdef) : bool :=
+  forallb (fun b => existsb (cident_eqb (cbvar b)) (cvars (cdctx d))) (tfv_stmt (cdbody d) []).
+Definition cprog_closed (c : cprog) : bool := forallb cdef_closed (cpdefs c).
+
+Definition compiled_before_fix_or_empty (p : fcprog) : cprog :=
+  match compile_prog_before_fix p with Ok c => c | Err _ => mkcp [] [] [] 0 end.
+
+Lemma goto_witness_fun : run_fun 200 goto_witness [] = ([(true, 4%Z)], OExit 0%Z).
+Proof. vm_compute. reflexivity. Qed.
+Lemma goto_witness_core_before_fix :
+  run_core 200 (compiled_before_fix_or_empty goto_witness) [] = ([], OStuck "covar-unbound").
+Proof. vm_compute. reflexivity. Qed.
+
+(* REGRESSION STATEMENT about the translation as it was before fix commit 126604b of /repo
+   ([compile_prog_before_fix]: goto target typed with the goto expression's annotation): the
+   translated witness is not closed and its Core run is stuck on the unbound covariable. *)
+Theorem fun2core_goto_unbound_before_fix_lemma :
+  exists (p : fcprog) (args : list Z) (c : cprog) (n : nat),
+    annotated_fcprog p = true /\ effect_sequenced p = true /\ shadowing_risk_prog p = false /\
+    goto_type_mismatch_prog p = true /\
+    compile_prog_before_fix p = Ok c /\
+    cprog_closed c = false /\
+    defined (run_fun n p args) = true /\
+    run_fun n p args <> run_core n c args.
+Proof.
+  exists goto_witness, [], (compiled_before_fix_or_empty goto_witness), 200%nat.
+  do 7 (split; [vm_compute; reflexivity|]).
+  rewrite goto_witness_fun, goto_witness_core_before_fix. intros H. discriminate H.
+Qed.
+
+(* ... and the CURRENT translation of the same witness is closed and behaves like the source *)
+Lemma goto_witness_fixed_lemma :
+  compile_prog goto_witness = Ok (compiled_or_empty goto_witness) /\
+  cprog_closed (compiled_or_empty goto_witness) = true /\
+  run_core 200 (compiled_or_empty goto_witness) [] = run_fun 200 goto_witness [] /\
+  run_fun 200 goto_witness [] = ([(true, 4%Z)], OExit 0%Z).
+Proof. vm_compute. repeat split; reflexivity. Qed.
+
+(* sanity: the capture witness's translation IS closed (that defect is a capture, not an escape) *)
+Lemma capture_witness_closed : cprog_closed (compiled_or_empty capture_witness) = true.
+Proof. vm_compute. reflexivity. Qed.
+
+(* ====================================================================================
+   Part 5 (for property C19, output size): a continuation that is not a leaf is never duplicated
+   by `if` / `case`: it is lifted ONCE by `share`, and the branches are translated with a
+   call-continuation whose size does not depend on the size of the original continuation.
+   ==================================================================================== *)
+Open Scope N_scope.
+Lemma size_args_of_bindings : forall bs,
+  (fix go (l : list carg) : N := match l with [] => 0 | y :: r => size_carg y + go r end) (map arg_of_binding bs)
+  = N.of_nat (List.length bs).
+Proof.
+  induction bs as [|b r IH]; [reflexivity|].
+  change (size_carg (arg_of_binding b) +
+          (fix go (l : list carg) : N := match l with [] => 0 | y :: r => size_carg y + go r end) (map arg_of_binding r)
+          = N.of_nat (S (List.length r))).
+  rewrite IH, Nat2N.inj_succ. unfold arg_of_binding. destruct (cbchi b); cbn [size_carg size_cterm]; lia.
+Qed.
+
+Lemma size_mu_call : forall c v n args ty ty',
+  size_cterm (CMu c v (CCall n args ty) ty') =
+  1 + (1 + (fix go (l : list carg) : N := match l with [] => 0 | y :: r => size_carg y + go r end) args).
+Proof. reflexivity. Qed.
+
+Lemma share_size : forall cur cont st k st',
+  share cur cont st = Ok (k, st') ->
+  exists d, st_lifted st' = d :: st_lifted st /\
+            size_cstmt (cdbody d) <= size_cterm cont + 2 /\
+            size_cterm k = 2 + N.of_nat (List.length (cdctx d)).
+Proof.
+  intros cur cont st k st' H. unfold share in H. unfold mbind at 1 in H.
+  destruct (match cont with CMu _ v s ty => mret (v, ty, s) | _ => _ end st) as [[[[var ty] body] st1]|e] eqn:E1;
+    [|discriminate].
+  assert (Hb : size_cstmt body <= size_cterm cont + 2 /\ st_lifted st1 = st_lifted st).
+  { destruct cont; try (unfold mbind, fresh_var, fresh_in_vars in E1;
+      destruct (fresh_name (st_used_vars st) "x") as [nm used'];
+      unfold mret in E1; injection E1 as _ _ Hbody E1; subst; split; [cbn [size_cstmt size_cterm]; lia | reflexivity]). }
+  destruct Hb as [Hsz Hl].
+  unfold mbind, fresh_label in H.
+  destruct (fresh_name (st_used_labels st1) _) as [nm used'].
+  unfold push_lifted, mret in H. injection H as Hk Hst. subst k st'.
+  cbn [st_lifted]. eexists. split; [rewrite Hl; reflexivity|]. cbn [cdbody cdctx]. split; [exact Hsz|].
+  rewrite size_mu_call, size_args_of_bindings. lia.
+Qed.
+
+(* `if`: with a non-leaf continuation, both branches receive the SAME small continuation k (a mu~
+   whose body is one call with variable arguments) and the original continuation occurs once, in
+   the lifted definition d *)
+Theorem fun2core_ifc_shares_continuation : forall cur s ca cb wt we cont st r st',
+  cont_is_small cont = false ->
+  wc_ifc cur s ca cb wt we cont st = Ok (r, st') ->
+  exists k st1 d a b t e st2 st3,
+    share cur cont st = Ok (k, st1) /\
+    st_lifted st1 = d :: st_lifted st /\
+    size_cstmt (cdbody d) <= size_cterm cont + 2 /\
+    size_cterm k = 2 + N.of_nat (List.length (cdctx d)) /\
+    wt k st2 = Ok (t, st3) /\ we k st3 = Ok (e, st') /\
+    r = CIfC (sort_of s) a b t e /\
+    size_cstmt r = 1 + size_cterm a + match b with Some b' => size_cterm b' | None => 0 end
+                   + size_cstmt t + size_cstmt e.
+Proof.
+  intros cur s ca cb wt we cont st r st' Hns H. unfold wc_ifc in H. rewrite Hns in H.
+  unfold mbind at 1 in H. destruct (share cur cont st) as [[k st1]|?] eqn:Es; [|discriminate].
+  destruct (share_size _ _ _ _ _ Es) as [d [Hl [Hsz Hk]]].
+  unfold mbind at 1 in H. destruct (ca st1) as [[a sta]|?]; [|discriminate].
+  unfold mbind at 1 in H.
+  destruct (match cb with Some cb0 => _ | None => mret None end sta) as [[b stb]|?]; [|discriminate].
+  unfold mbind at 1 in H. destruct (wt k stb) as [[t stt]|?] eqn:Et; [|discriminate].
+  unfold mbind at 1 in H. destruct (we k stt) as [[e ste]|?] eqn:Ee; [|discriminate].
+  unfold mret in H. injection H as Hr Hst. subst.
+  exists k, st1, d, a, b, t, e, stb, stt. repeat split; auto.
+Qed.
+
+(* `case` with at least two clauses: likewise *)
+Theorem fun2core_case_shares_continuation : forall cur wscrut sty n ccls cont st r st',
+  cont_is_small cont = false -> (2 <= n)%nat ->
+  wc_case cur wscrut sty n ccls cont st = Ok (r, st') ->
+  exists k st1 d,
+    share cur cont st = Ok (k, st1) /\
+    st_lifted st1 = d :: st_lifted st /\
+    size_cstmt (cdbody d) <= size_cterm cont + 2 /\
+    size_cterm k = 2 + N.of_nat (List.length (cdctx d)) /\
+    exists cls st2 ty, ccls k st1 = Ok (cls, st2) /\ wscrut (CXCase CCns cls ty) st2 = Ok (r, st').
+Proof.
+  intros cur wscrut sty n ccls cont st r st' Hns Hn H. unfold wc_case in H.
+  assert (Hleb : Nat.leb n 1 = false) by (apply Nat.leb_gt; lia).
+  rewrite Hleb, Hns in H. simpl in H.
+  unfold mbind at 1 in H. destruct (share cur cont st) as [[k st1]|?] eqn:Es; [|discriminate].
+  destruct (share_size _ _ _ _ _ Es) as [d [Hl [Hsz Hk]]].
+  unfold mbind at 1 in H. destruct (ccls k st1) as [[cls st2]|?] eqn:Ec; [|discriminate].
+  unfold mbind at 1 in H. unfold mlift in H. destruct (expect_ty sty) as [ty|?]; [|discriminate].
+  exists k, st1, d. repeat split; auto. exists cls, st2, (compile_ty ty). split; [exact Ec | exact H].
+Qed.
+Close Scope N_scope.
